@@ -9,7 +9,8 @@ import (
 )
 
 // Issues returns a channel with gitlab project issues, ascending order.
-func Issues(ctx context.Context, client *gitlab.Client, pid string, since time.Time) <-chan *gitlab.Issue {
+// A request that fails ends the listing; the error is handed to onError so that it doesn't go unnoticed.
+func Issues(ctx context.Context, client *gitlab.Client, pid string, since time.Time, onError func(error)) <-chan *gitlab.Issue {
 	out := make(chan *gitlab.Issue)
 
 	go func() {
@@ -24,6 +25,7 @@ func Issues(ctx context.Context, client *gitlab.Client, pid string, since time.T
 		for {
 			issues, resp, err := client.Issues.ListProjectIssues(pid, &opts, gitlab.WithContext(ctx))
 			if err != nil {
+				onError(err)
 				return
 			}
 
